@@ -257,6 +257,10 @@ namespace Dune
   template<int k>
   inline void bigunsignedint<k>::print (std::ostream& s) const
   {
+    // The hex digits are written as characters: written as integers they pick up the formatting flags of the
+    // stream (with std::showbase every non-zero digit got its own "0x" prefix), and the basefield of the stream
+    // had to be changed (and was left at std::dec, whatever it was before).
+    static const char hexchars[] = "0123456789abcdef";
     bool leading=false;
 
     // print from left to right
@@ -267,14 +271,12 @@ namespace Dune
         int current = (digit[i]>>(d*4))&0xF;
         if (current!=0)
         {
-          //			  s.setf(std::ios::noshowbase);
-          s << std::hex << current;
+          s << hexchars[current];
           leading = false;
         }
-        else if (!leading) s << std::hex << current;
+        else if (!leading) s << hexchars[current];
       }
     if (leading) s << "0";
-    s << std::dec;
   }
 
   template <int k>
